@@ -16,19 +16,19 @@ def run(ctx, repo):
         'counter that is reset after each document (R-NO-NONDETERMINISM, R-DOC-RESET); loading inserts in document order '
         '(R-INSERTION-ORDER-LOAD).')
     ctx.trust('CPython ast')
-    RR2.r_no_nondeterminism(ctx, repo)
-    RR2.r_sort_gate(ctx, repo)
-    RO.r_option_plumbing(ctx, repo)
-    RS.r_doc_reset(ctx, repo, entries=[e for e in RS.DOC_ENTRIES if e[0] in ('serializer.Serializer', '_yaml.CEmitter',
+    ctx.call(RR2.r_no_nondeterminism, repo)
+    ctx.call(RR2.r_sort_gate, repo)
+    ctx.call(RO.r_option_plumbing, repo)
+    ctx.call(RS.r_doc_reset, repo, entries=[e for e in RS.DOC_ENTRIES if e[0] in ('serializer.Serializer', '_yaml.CEmitter',
                                                                              'representer.BaseRepresenter')])
-    RR2.r_insertion_order_load(ctx, repo)
+    ctx.call(RR2.r_insertion_order_load, repo)
 
     # dump(load(dump(x))) == dump(x) needs the loader to give back the sharing the first dump wrote as anchors/aliases:
     # one object per node, whatever its kind
-    ROR.r_construct_cache(ctx, repo)
+    ctx.call(ROR.r_construct_cache, repo)
 
-    EFF.r_global_readonly(ctx, repo)
-    RX.r_no_memo(ctx, repo)
+    ctx.call(EFF.r_global_readonly, repo)
+    ctx.call(RX.r_no_memo, repo)
 
 if __name__ == '__main__':
     sys.exit(report.main('C16', 'other', run))
